@@ -69,6 +69,7 @@ func (check) Assumptions() []string {
 		"typed reads: a read that fails for several reasons (cyclic and other) only has to fail; which failing position is reported is not compared; the Path of *Config members is not compared; configurations whose model evaluation needs more than 1500 steps are skipped (library reads stay below 2 resolutions per model step, far from the budget)",
 		"path worlds: the reference-valued settings a path walk passes are evaluated one after the other and are not under evaluation any more when the setting found is evaluated (String(\"x.c\") = Child(\"x\") then String(\"c\")); while a container reached through references is UNPACKED these references stay under evaluation (so ${x.k} met while y is unpacked via x: ${y} is a re-entry of y). Not judged: reads where a resolver knows a name whose path fails on the way (whether the resolver is asked depends on where), Has on a path with a primitive in the middle, history steps after which the configuration does not store what replacing the setting would store (how Merge combines a reference to an enclosing object with an existing reference is Merge semantics, checked by sameStored through VerifWalk)",
 		"a struct tag with several elements (config:\"r.x\") is judged like the nested members it stands for: the references evaluated for the elements of its path stay under evaluation while the setting found is unpacked (getters with the same path do not keep them: String(\"x.c\") = Child(\"x\") then String(\"c\")). Consequence shared with unpacking through an alias in general (audit item 7): a setting whose leaves all read fine through getters can fail as cyclic when unpacked through the alias - by the stack semantics the reference is still being evaluated while its value is unpacked, which is what makes anc: {b: ${anc}} a cycle at all",
+		"path worlds: a read during which the substituted text of a setting only BECOMES a number, boolean or null by the text->value step and is not written the way the library prints that value (9e9, 1e3, 5.0, 0x10, on - arising from concatenations of digits and the letter e) is not judged (monitor path_reads_not_judged_text_becomes_a_noncanonical_numeral): how such a value reads when spliced into another text is number rendering, not reference resolution",
 		"environments: a name of the configuration whose path fails as cyclic there but which the environment knows is not judged (who wins is not pinned down); references written in an environment are looked up in that environment only",
 		"not generated: configurations whose keys contain the path separator of the read (built under another PathSep, audit item 6): the property quantifies over the reference graphs of ONE configuration read under one spelling of its names; two settings spelled alike is a path-spelling question",
 		"a user type's ConfigUnpacker calling Unpack again starts a new read operation (own active set): outside one read operation",
